@@ -478,11 +478,11 @@ def gave_up(res):
                for _, _, th, ev in events(res))
 
 
-def project(res, variant, selfcheck=False, stopwdog=False):
+def project(res, variant, selfcheck=False, stopwdog=False, killafter=False):
     case = res["case"]
     o = case["opts"]
-    L = ["init %s %d %d %d %d %d %d" % (variant, case["fanout"], o["ct"], o["ut"], o["sopt"], 1 if selfcheck else 0,
-                                        1 if stopwdog else 0)]
+    L = ["init %s %d %d %d %d %d %d%s" % (variant, case["fanout"], o["ct"], o["ut"], o["sopt"], 1 if selfcheck else 0,
+                                          1 if stopwdog else 0, " 1" if killafter else "")]
     if o.get("k"):
         L.append("kopt 1")
     for b in case["behaviours"]:
